@@ -439,6 +439,7 @@ type ctxRun struct {
 	ReuseSame  bool   `json:"reuse_same"`  // same instance, same input, uncancelled afterwards = uncancelled result
 	ProbeSame  bool   `json:"probe_same"`  // same instance, probe input = fresh-instance result
 	StateClean bool   `json:"state_clean"` // parser: no context kept, depth 0
+	PoolDup    string `json:"pool_dup,omitempty"` // a pool hands one object to two holders after this call (released twice)
 	Result     string `json:"result"`      // hash of trees/tokens when a result came back
 }
 
@@ -633,6 +634,7 @@ func ctxSweepOne(id, sql string, maxK int) ctxOut {
 				if a2 != nil {
 					r.Result = resHash(a2, nil)
 				}
+				r.PoolDup = astPoolHandsOutDuplicates()
 				a3, e3 := p2.ParseFromModelTokens(toks)
 				r.ReuseSame = resHash(a3, e3) == free
 				a4, e4 := p2.ParseFromModelTokens(probeToks)
@@ -690,6 +692,7 @@ func ctxSweepGosqlx(sql string, maxK int) ctxEP {
 			if a2 != nil {
 				r.Result = resHash(a2, nil)
 			}
+			r.PoolDup = poolHandsOutDuplicates()
 			// pooled tokenizer / parser instances are reused by the next calls
 			a3, e3 := gosqlx.Parse(sql)
 			r.ReuseSame = resHash(a3, e3) == free
